@@ -457,8 +457,8 @@ class Grid(Combinator[List[List[T]]]):
             return None
 
         d = data[idx]
-        height = self._height or env.height
-        width = self._width or env.width
+        height = self._height if self._height is not None else env.height
+        width = self._width if self._width is not None else env.width
         seq_combinator = Seq(self._base, height * width)
 
         d_flat = []
@@ -471,8 +471,8 @@ class Grid(Combinator[List[List[T]]]):
     def deserialize(
         self, env: CombinatorEnv, data: str, idx: int
     ) -> Optional[Tuple[int, List[List[List[T]]]]]:
-        height = self._height or env.height
-        width = self._width or env.width
+        height = self._height if self._height is not None else env.height
+        width = self._width if self._width is not None else env.width
         seq_combinator = Seq(self._base, height * width)
 
         tmp = seq_combinator.deserialize(env, data, idx)
